@@ -37,6 +37,12 @@ def lock_frames(R, g, n):
 
 def check(run):
     R = run
+    R.rule('C11.shared', 'objects created once per class / per function definition (class-level attributes, parameter '
+           'defaults) are only read (no frame/header cache or lock shared across instances by accident); a failed '
+           'sendall() is never re-issued', 3)
+    from .common import shared_state, no_send_retry
+    shared_state(R, 'C11.shared')
+    no_send_retry(R, 'C11.shared')
     R.rule('C11.locked', 'every write to / close of the session socket is inside a critical section of the session lock', 3)
     R.rule('C11.private', 'no shared field is written while a frame is built (send -> to_bytes -> build -> mask)', 5)
     R.rule('C11.once', 'send() / send_compressed() call write() exactly once on every path', 2)
@@ -50,6 +56,7 @@ def check(run):
     locked(R)
     private(R)
     once(R)
+    writeonce(R)
     single(R)
     ctx(R)
     C03.rsv1gate(R, RID='C11.wireorder')
@@ -159,6 +166,31 @@ def once(R):
         R.ob('C11.once', '%s writes exactly once' % q.rsplit('.', 1)[1], ok,
              '%s() can return normally without writing its frame (a message is silently lost) or write twice' % q.rsplit('.', 1)[1],
              func=q, node=None, construct='%s write paths' % q)
+
+
+def writeonce(R, RID='C11.once'):
+    """write(data): every normal return has passed exactly one socket write, whose argument is the `data` parameter
+    itself (nothing queued, joined or left for another thread to send)."""
+    from .common import effective_write_sites, is_param
+    from ..dataflow import ReachingDefs
+    q = S + '.write'
+    g = R.cfg(q)
+    rd = ReachingDefs(g)
+    sites = [(n, c) for (g_, n, c, via) in effective_write_sites(R) if g_.ctx.func.qual == q]
+    need(sites, 'write(): no socket write reached from write()')
+    wn = [n for (n, c) in sites]
+    ok = all_paths_pass(g, [g.entry], wn, [g.exit], skip_edge=nx)
+    R.ob(RID, 'write() returns normally only after the socket write', ok,
+         'write() can return normally without having written its data (the caller\'s message is silently dropped or left '
+         'for another thread)', func=q, node=None, construct='write() path without socket write')
+    twice = any(w2 in g.succ_reach(w1, skip_edge=nx) for w1 in wn for w2 in wn)
+    R.ob(RID, 'write() writes once', not twice, 'two socket writes on one path of write()', func=q, node=None,
+         construct='write() writes twice')
+    for (n, c) in sites:
+        data = c.args[0] if c.args else None
+        R.ob(RID, 'write() sends exactly its argument', data is not None and is_param(rd, n, data),
+             'the socket write in write() sends `%s`, not the unmodified data parameter' % U(data), func=q, node=c,
+             construct='write() sends %s' % U(data))
 
 
 def single(R):
